@@ -119,6 +119,13 @@ class ClassFacts:
             if ev.kind == "assert" and ev.depth == 0:
                 F = d.cn.formula(ev.data["test"])
                 self._collect_polarity(F, True)
+            elif ev.kind == "raise" and ev.depth == 0:
+                # `if not <well-formed>: raise ...` is the same domain restriction as the assert:
+                # the path condition of the raise, simplified by the restrictions collected so far,
+                # is excluded - provided it speaks about the target address only
+                F = self.strip(d.conj(tuple(c for c in ev.pc if c[0] not in ("fact", "inloop"))))
+                if f_atoms(F) and all(ASSUME_RE.match(a) for a in f_atoms(F)):
+                    self._collect_polarity(F, False)
         self.outcomes = d.outcomes
         for o in self.outcomes:
             o.G = self.strip(o.F)
